@@ -44,7 +44,9 @@ static int forged_call(const cons *C, const tuple *t, const unsigned char *c, si
     o = outimg + OUTCAP;
     r = C->decd(o + 16, c, clen, tag, adlen ? ad : NULL, adlen, nonce, kc);
     if (r == 0 && !bad) { bad = 1; *why = "detached decrypt accepted a forgery"; }
-    if (C->null_m_verify) { r = C->decd(NULL, c, clen, tag, adlen ? ad : NULL, adlen, nonce, kc); if (r == 0 && !bad) { bad = 1; *why = "verify-only (m=NULL) accepted a forgery"; } }
+    if (C->null_m_verify) { r = C->decd(NULL, c, clen, tag, adlen ? ad : NULL, adlen, nonce, kc); if (r == 0 && !bad) { bad = 1; *why = "verify-only (m=NULL) accepted a forgery"; }
+        ml = 4242; r = C->dec(NULL, &ml, comb, clen + T, adlen ? ad : NULL, adlen, nonce, kc); if (r == 0 && !bad) { bad = 1; *why = "combined verify-only (m=NULL) accepted a forgery"; }
+        for (x = 0; x < C->nx; x++) if (!strstr(C->x[x].name, "nacl")) { r = C->x[x].dec(NULL, c, clen, tag, adlen ? ad : NULL, adlen, nonce, kc); if (r == 0 && !bad) { bad = 1; *why = "verify-only (m=NULL) extra form accepted a forgery"; } } }
     for (x = 0; x < C->nx; x++) {
         o = outimg + (2 + x) * OUTCAP;
         r = C->x[x].dec(o + 16, c, clen, tag, adlen ? ad : NULL, adlen, nonce, kc);
